@@ -1,4 +1,5 @@
 import CharsetProof.Lemmas.Chaos
+import CharsetProof.Lemmas.CohOk
 import CharsetProof.Lemmas.EntryFacts
 import CharsetProof.Lemmas.F32
 import CharsetProof.Lemmas.Md
@@ -6,11 +7,16 @@ import CharsetProof.Lemmas.SortPerm
 import CharsetProof.Props.C04
 import CharsetProof.Props.C04b
 import CharsetProof.Props.C04c
+import CharsetProof.Props.C04d
 import CharsetProof.Props.C10e
 open Charset
 #print axioms C04_chaos_range
 #print axioms C04_chaos_range_md
 #print axioms C04_chaos_range_full
+#print axioms C04_coherence_nonneg_full
+#print axioms Coh.coherenceRatio_scores_ok
+#print axioms mergeModel_scores_ok
+#print axioms jaro_ok
 #print axioms C04_mess_ratio_nonneg
 #print axioms worldMd_mess_ok
 #print axioms C04_md_flags_covered
